@@ -35,6 +35,9 @@ PROPS_PART = {
                    '(RDATA validated, <= 65535 octets).',
         verus=[dict(unit='tsig', which='all'), dict(unit='tsig_rdata', which='all'),
                dict(unit='name_wire', which='all'), dict(unit='dns_types', which='all')],
+        native=[dict(bin='bnd_server_tsig', when='quick',
+                     bound='8 key/algorithm choices (3 configured keys, upper-case key / algorithm names, unknown key, configured key with the other algorithm, unknown algorithm) x 16 MAC edits (full, truncated to 0/1/9/10/15/16/19/20/21/31, one octet too long, bit flips, zeros) x 19 time offsets (inside/outside the fudge, +-65536, 0, 2^48-1) x fudge 300/30/65535 x original ID equal/different x EDNS yes/no x UDP/TCP; 4 more request kinds pruned; HMAC-SHA1 and HMAC-SHA256; system clock read per request, >= 50 s margin to the window edges',
+                     what='server-visible part: every response MAC equals the independent RFC 8945 4.3 computation (request MAC, message with the ORIGINAL ID and decremented ARCOUNT, canonical TSIG variables); requests are accepted exactly when the (possibly truncated) MAC matches and the time is within the fudge window')],
         kani=[dict(harness='full_time_signed_unix_roundtrip', module='tsig', kind='complete', tier='quick',
                    what='try_from_unix_time accepts exactly u64 values < 2^48, stores them big-endian; to_unix_time inverts it'),
               dict(harness='full_time_signed_octets_roundtrip', module='tsig', kind='complete', tier='quick',
@@ -73,6 +76,9 @@ PROPS_PART = {
                    'server cannot discharge it over UDP without EDNS (known finding D4, notes/demos/d4_tsig_unwrap.rs; proposed fix '
                    'notes/proposed_fixes/D4_tsig_unwrap.diff with the variant unit notes/proposed_fixes/D4_tsig_server_fixed.vrs).',
         verus=[dict(unit='tsig_server', which='all'), dict(unit='tsig', which='all'), dict(unit='tsig_rdata', which='all')],
+        native=[dict(bin='bnd_server_tsig', when='quick',
+                     bound='8 key/algorithm choices (3 configured keys, upper-case key / algorithm names, unknown key, configured key with the other algorithm, unknown algorithm) x 16 MAC edits (full, truncated to 0/1/9/10/15/16/19/20/21/31, one octet too long, bit flips, zeros) x 19 time offsets (inside/outside the fudge, +-65536, 0, 2^48-1) x fudge 300/30/65535 x original ID equal/different x EDNS yes/no x UDP/TCP; 4 more request kinds pruned; HMAC-SHA1 and HMAC-SHA256; system clock read per request, >= 50 s margin to the window edges',
+                     what='real Server::handle_message with a key set against RFC 8945 5.2 (key, MAC length, MAC, time - in that order) computed with an independent HMAC: answered normally + verifiable response MAC; BADKEY/BADSIG with empty MAC; FORMERR for a MAC outside the allowed length; BADTIME signed; no answer data otherwise')],
         kani=[],
         cex={},
         unverified=['Server::handle_message_with_context TSIG branch (TSIG must be the last additional record, FORMERR on parse failure, order '
